@@ -53,6 +53,8 @@ def generate(prop, seed, tier):
         G.constant_factors(spec, g)
     if g.random() < 0.2:
         G.add_neq_terminal(spec, g, 'unit' if menu == 'unit' else 'small')
+    if g.random() < 0.15:
+        G.add_onehot_terminals(spec, g)
     method = g.choice(['fixed-point', 'fixed-point', 'newton', 'newton', 'linear'])
     if sem in ('real', 'log') and g.random() < 0.08:
         # several independent recursive components, each solved by its own run of the iterative method
@@ -61,7 +63,9 @@ def generate(prop, seed, tier):
     if g.random() < 0.12:
         # one linear SCC of 3-5 mutually recursive nonterminals (ring + chords): block elimination with fill-in
         spec = G.ring_chord_spec(g, 'unit' if menu == 'unit' else 'small')
-        method = g.choice(['linear', 'newton', 'newton', 'fixed-point'])
+        method = g.choice(['linear', 'newton', 'newton', 'fixed-point', 'fixed-point'])
+        if g.random() < 0.4:
+            G.add_onehot_terminals(spec, g)
     return {'engine': 'solver', 'prop': prop, 'seed': seed, 'spec': spec, 'semiring': sem, 'method': method,
             'tol': g.choice([1e-3, 1e-5, 1e-7, 1e-7, 0.0]), 'kmax_mode': g.choice(['0', '1', '2', 'K-1', 'K', 'K+5', '1000', '1000', '1000']),
             'env': {'alloc': {'mode': 'order', 'seed': seed}, 'axhash': seed,
@@ -71,7 +75,7 @@ def generate(prop, seed, tier):
             # history on the same FGG object: an earlier query under doubled weights (then halved in place), and/or the same
             # query repeated -- the answer and the warning must not depend on what the object was asked before
             'hist': {'prequery': g.choice([None, None, None, 'fixed-point', 'fixed-point', 'newton']),
-                     'repeat': g.random() < 0.3}}
+                     'repeat': g.random() < 0.5}}
 
 
 def reducers(case):
